@@ -391,4 +391,9 @@ def _codes(chk, ctx, sev) -> None:
         chk.ob('C11.codes', f'HandHistory.required_field_names[{code!r}]', tuple(req.get(code, ())) == want, hh.loc,
                'the required PHH fields of a variant are exactly the parameters its game class is built from',
                got=req.get(code), want=want)
-    chk.floor('C11.codes', 22)
+    # a game is recorded under the code of its own class (a variant without a code is an error, not its parent's game)
+    fgs = hh.methods.get('from_game_state')
+    ok = fgs is not None and bool(ctx.m.exprs(fgs.node, 'cls.variants[type(game)]', nested=False))
+    chk.ob('C11.codes', 'HandHistory.from_game_state:exact_class', ok, fgs.loc if fgs else hh.loc,
+           'the variant code written for a game is looked up by the exact class of the game')
+    chk.floor('C11.codes', 23)
